@@ -130,6 +130,33 @@ def singleSection (fns : List FnInfo) (facts : List Fact) (pkg fn lock : String)
 /-- set equality of two lists -/
 def sameSet {α} [BEq α] (a b : List α) : Bool := a.all b.contains && b.all a.contains
 
+/-! ### commit shape (C06): the part of a MemFS namespace call that runs under the parent's lock -/
+
+def shapeFacts (facts : List Fact) (fn kind : String) : List Fact :=
+  facts.filter fun f => f.pkg == "memfs" && f.fn == fn && f.kind == kind
+
+/-- the commit of `fn` works on what it finds under the lock: the function walks, takes the parent's lock once, every
+    mutation of the parent's entries is preceded (in the locked region) by a look-up of the entry, and no value the walk
+    captured is used after the lock without being looked up again -/
+def commitFresh (facts : List Fact) (fn : String) : Bool :=
+  !(shapeFacts facts fn "walk").isEmpty && (shapeFacts facts fn "commitlock").length == 1 &&
+  !(shapeFacts facts fn "mutate").isEmpty && (shapeFacts facts fn "mutate").all (·.write) &&
+  (shapeFacts facts fn "stale").isEmpty
+
+/-- the creating branch of OpenFile: the entry is looked up again into the child variable before createFile -/
+def commitFreshCreate (facts : List Fact) (fn child : String) : Bool :=
+  (shapeFacts facts fn "commitlock").length == 1 &&
+  (shapeFacts facts fn "relookup").any (·.field == child) &&
+  !(shapeFacts facts fn "mutate").isEmpty && (shapeFacts facts fn "mutate").all (·.write)
+
+/-- every place where a commit relies on what the unlocked walk saw: (function, "stale", variable) and
+    (function, "unchecked", mutation) -/
+def staleSites (facts : List Fact) : List (String × String × String) :=
+  (facts.filterMap fun f =>
+    if f.pkg == "memfs" && f.kind == "stale" then some (f.fn, "stale", f.field)
+    else if f.pkg == "memfs" && f.kind == "mutate" && !f.write then some (f.fn, "unchecked", f.field)
+    else none).eraseDups
+
 def unknownFacts (facts : List Fact) : List (String × String × Nat × String) :=
   facts.filterMap fun f => if f.kind == "unknown" then some (f.pkg, f.fn, f.line, f.note) else none
 
